@@ -24,7 +24,7 @@ func init() {
 			"the with-expressions of the sandboxed include itself are written in the outer template and evaluated with outer permissions",
 			"macro calls count as function calls for the policy check (observed behaviour), so macro names used inside the sandbox are allowed functions",
 		},
-		quick: 22*10*2*4*2 + 24000, thorough: 22*10*2*4*2 + 400000, minQuick: 3000, minThorough: 60000,
+		quick: 28*10*2*4*2 + 24000, thorough: 28*10*2*4*2 + 400000, minQuick: 3000, minThorough: 60000,
 	}})
 }
 
@@ -68,6 +68,15 @@ var c06Positions = []string{
 	"{{ xs[%F] }}",
 	"{{ v|okf(1, %F) }}",
 	"{% do %F %}",
+	// method-form calls on a value that is no macro module fall back to the function table
+	"{{ v.X_FN() }}",
+	"{{ v.X_FN(1, v) }}",
+	"{{ xs.X_FN() }}",
+	// a macro named like the forbidden function is in scope: whichever of the two the call resolves to, the forbidden function
+	// must not run (SPYONLY: no error is demanded, the macro may legitimately answer the call)
+	"SPYONLY:{% macro X_FN() %}mac{% endmacro %}{{ v.X_FN() }}",
+	"SPYONLY:{% macro X_FN(a) %}mac{{ a }}{% endmacro %}{{ X_FN(v) }}{{ _self.X_FN(v) }}",
+	"SPYONLY:{% macro X_FN() %}mac{% endmacro %}{{ xs.X_FN() }}{% for i in xs %}{{ i.X_FN() }}{% endfor %}",
 }
 
 const c06Routes = 10
@@ -95,6 +104,11 @@ func c06Expand(pos string, kind string, name string) (string, bool) {
 		} else {
 			s = strings.ReplaceAll(s, "X_SEQ", "xs|"+name)
 		}
+	case strings.Contains(s, "X_FN"):
+		if kind != "function" {
+			return "", false
+		}
+		s = strings.ReplaceAll(s, "X_FN", name)
 	case strings.Contains(s, "X_APPLY"):
 		if kind == "function" {
 			return "", false
@@ -233,7 +247,10 @@ func (p *c06) Run(rec *core.Recorder, seed uint64, idx int, tier string) {
 	default:
 		name = map[string]string{"filter": "merge", "function": "range"}[kind]
 	}
-	frag, ok := c06Expand(c06Positions[pos], kind, name)
+	posSrc := c06Positions[pos]
+	spyOnly := strings.HasPrefix(posSrc, "SPYONLY:")
+	posSrc = strings.TrimPrefix(posSrc, "SPYONLY:")
+	frag, ok := c06Expand(posSrc, kind, name)
 	if !ok {
 		rec.Count("skipped-not-applicable", 1)
 		return
@@ -305,6 +322,10 @@ func (p *c06) Run(rec *core.Recorder, seed uint64, idx int, tier string) {
 		}
 	}
 	var sv *twig.SecurityViolation
+	if spyOnly {
+		rec.Count("spy-only-cases", 1)
+		return
+	}
 	if res.Err == nil || !errors.As(res.Err, &sv) {
 		rec.Violate("security-error", fmt.Sprintf("no-violation-error:pos%d:route%d:%s", pos, route, kind),
 			fmt.Sprintf("forbidden %s %q on a straight-line path in a sandboxed include: render returned out=%q err=%v instead of a *SecurityViolation", kind, name, core.Trunc(res.Out, 120), res.Err), cs, "")
